@@ -56,7 +56,30 @@ def _https_join(m):
     raise ValueError('Https::join shape not recognised')
 
 
+X509 = 'src/repository/x509.rs'
+
+
+def _digits_only(m):
+    # both read_two_char and read_four_char must check for ASCII digits before u32::from_str
+    body = m.group(1)
+    fns = re.findall(r'fn read_(?:two|four)_char<[\s\S]*?\n\}', body)
+    if len(fns) != 2:
+        raise ValueError('read_two_char/read_four_char not found')
+    flags = [bool(re.search(r'is_ascii_digit', f)) for f in fns]
+    if all(flags):
+        return True
+    if not any(flags):
+        return False
+    raise ValueError('only one of read_two_char/read_four_char checks digits')
+
+
 EXTRA = [
+    # ---- C17
+    ('utcPivot', X509, r'Tag::UTC_TIME => \{[\s\S]*?let year = if year >= (\d+) \{ year \+ 1900 \}\s*else \{ year \+ 2000 \};', 'nat', ['C17']),
+    ('utcPivotOpt', X509, r'take_opt_primitive_if\(Tag::UTC_TIME, \|prim\| \{[\s\S]*?let year = if year >= (\d+) \{ year \+ 1900 \}\s*else \{ year \+ 2000 \};', 'nat', ['C17']),
+    ('utcYearMin', X509, r'pub fn encode_varied\(self\) -> impl encode::Values \{\s*if self\.year\(\) < (\d+) \|\| self\.year\(\) > \d+ \{', 'nat', ['C17']),
+    ('utcYearMax', X509, r'pub fn encode_varied\(self\) -> impl encode::Values \{\s*if self\.year\(\) < \d+ \|\| self\.year\(\) > (\d+) \{', 'nat', ['C17']),
+    ('timeDigitsOnly', X509, r'(fn read_two_char<[\s\S]*?)//------------ AsUtcTime', _digits_only, ['C17']),
     # ---- C12
     ('uriAsciiRanges', URI, r'fn is_u8_uri_ascii\(ch: u8\) -> bool \{\s*matches!\(\s*ch,\s*([^)]*?)\s*\)', _ascii_ranges, ['C12', 'C14']),
     ('rsyncModuleCaseInsensitive', URI, r'fn eq_module\(&self, other: &Rsync\) -> bool \{([\s\S]*?)\n    \}', _eq_module, ['C12']),
